@@ -107,6 +107,26 @@ def run_check(prop, tier, seed, jobs=None):
         path = oblmod.write_replay(prop, o, extra={"group_size": len(os_), "others": [x["name"] for x in os_[1:20]]})
         tail = "" if (rep and rep.get("reproduced")) else " no-failing-input-found"
         reported.append((o, path, tail))
+    # labelled bounded stand-in (concrete driver on the real code); never counted as proved
+    bounded_res = None
+    try:
+        Dm = importlib.import_module("drivers." + prop)
+        if hasattr(Dm, "bounded"):
+            bounded_res = Dm.bounded(tier, seed)
+    except ModuleNotFoundError:
+        pass
+    if bounded_res is not None:
+        main[0]["bounded"].append(bounded_res)
+        if bounded_res.get("failures"):
+            o = {"name": "%s/bounded-driver" % prop, "short": "bounded-driver", "cfg": None, "status": "violated",
+                 "backend": "concrete-driver", "detail": bounded_res.get("first_failures"),
+                 "witness": {"first_failures": bounded_res.get("first_failures")}, "replayed": {"reproduced": True}}
+            kf = _match_known(known, prop, o, o["replayed"])
+            if kf is not None:
+                known_hits.append((kf, o))
+            else:
+                path = oblmod.write_replay(prop, o)
+                reported.append((o, path, ""))
     wall = time.time() - t0
     ev = evidence.build(prop, tier, seed, L, main, can, obls, viol, und, reported, known_hits, dead, crashes, wall)
     evidence.write(prop, ev)
